@@ -322,51 +322,13 @@ func raceMode() {
 	os.WriteFile(filepath.Join(os.Getenv("VERIF_SCRATCH"), "race.json"), b, 0o644)
 }
 
-// racePassResult turns what the race-detector pass left in the scratch directory into violations and coverage.
-func racePassResult(run *vlib.Run) {
-	scratch := os.Getenv("VERIF_SCRATCH")
-	ex, err := os.ReadFile(filepath.Join(scratch, "race.exit"))
-	if err != nil {
-		return // replay of a single schedule: no race pass
-	}
-	stderr, _ := os.ReadFile(filepath.Join(scratch, "race.stderr"))
-	var r map[string]any
-	if b, err := os.ReadFile(filepath.Join(scratch, "race.json")); err == nil {
-		json.Unmarshal(b, &r)
-	}
-	code := strings.TrimSpace(string(ex))
-	reports := strings.Count(string(stderr), "WARNING: DATA RACE")
-	switch {
-	case reports > 0:
-		run.Violation("data-race", "the race detector reported a data race between broadcasts and clients connecting/leaving: "+firstLines(string(stderr), 30), map[string]any{"report": firstLines(string(stderr), 90)})
-	case strings.Contains(string(stderr), "fatal error:"):
-		run.Violation("crash-free-running", "the free-running pass crashed: "+firstLines(string(stderr[strings.Index(string(stderr), "fatal error:"):]), 12), map[string]any{"report": firstLines(string(stderr), 60)})
-	case r == nil || (code != "0" && code != "66"):
-		fmt.Fprintln(os.Stderr, string(stderr))
-		vlib.Fatal("race pass failed (exit %s)", code)
-	}
-	if r == nil {
-		r = map[string]any{}
-	}
-	r["race_detector_reports"] = reports
-	run.Cov["race_pass"] = r
-}
-
-func firstLines(s string, n int) string {
-	l := strings.Split(s, "\n")
-	if len(l) > n {
-		l = l[:n]
-	}
-	return strings.Join(l, "\n")
-}
-
 func main() {
 	if len(os.Args) > 1 && os.Args[len(os.Args)-1] == "race" {
 		raceMode()
 		return
 	}
 	run := vlib.Start("C19", "model_checking")
-	racePassResult(run)
+	run.RacePass("between broadcasts and clients connecting/leaving")
 	bound := run.Pick(2, 3)
 	scenarios := []scenario{
 		{name: "2 clients, 1 broadcast, client0 disconnects concurrently", clients: 2, sends: 1, cancel: 1},
